@@ -28,6 +28,9 @@ struct LimCfg {
     initial: usize,
     max: usize,
     factor: f64,
+    /// additive increase of the AIMD variants (any usize is a legal setting: usize::MAX says
+    /// "jump straight to the ceiling")
+    increase: usize,
     alpha: usize,
     beta: usize,
     programs: Vec<&'static str>,
@@ -70,10 +73,10 @@ impl Lim {
 
 impl LimCfg {
     fn label(&self) -> String {
-        format!("{} min={} initial={} max={} factor={} alpha={} beta={} programs={:?}", self.kind, self.min, self.initial, self.max, self.factor, self.alpha, self.beta, self.programs)
+        format!("{} min={} initial={} max={} factor={} alpha={} beta={} programs={:?}{}", self.kind, self.min, self.initial, self.max, self.factor, self.alpha, self.beta, self.programs, if self.increase != 1 { format!(" increase_by={}", self.increase) } else { String::new() })
     }
     fn make(&self, warmup: &str) -> Lim {
-        let cfg = AimdConfig::new().with_min_limit(self.min).with_initial_limit(self.initial).with_max_limit(self.max).with_increase_by(1).with_decrease_factor(self.factor);
+        let cfg = AimdConfig::new().with_min_limit(self.min).with_initial_limit(self.initial).with_max_limit(self.max).with_increase_by(self.increase).with_decrease_factor(self.factor);
         let l = match self.kind {
             "controller" => Lim::Controller(AimdController::new(cfg)),
             "aimd" => Lim::Aimd(Aimd::new(cfg, Duration::from_millis(THRESH_MS))),
@@ -103,8 +106,18 @@ fn lim_configs(tier: Tier) -> Vec<LimCfg> {
                 let ab: Vec<(usize, usize)> = if kind == "vegas" { vec![(1, 2), (3, 6)] } else { vec![(0, 0)] };
                 for (alpha, beta) in ab {
                     for p in &programs {
-                        v.push(LimCfg { kind, min, initial, max, factor, alpha, beta, programs: p.clone() });
+                        v.push(LimCfg { kind, min, initial, max, factor, increase: 1, alpha, beta, programs: p.clone() });
                     }
+                }
+            }
+        }
+    }
+    // other additive increases, up to the largest legal one
+    for (min, initial, max) in [(1usize, 1usize, 4usize), (5, 5, 100), (1, 1, usize::MAX)] {
+        for kind in ["controller", "aimd"] {
+            for increase in [2usize, usize::MAX - 2, usize::MAX] {
+                for p in programs.iter().take(2) {
+                    v.push(LimCfg { kind, min, initial, max, factor: 0.5, increase, alpha: 0, beta: 0, programs: p.clone() });
                 }
             }
         }
